@@ -15,25 +15,34 @@ CHECK_DEADLOCK FALSE
 '''
 
 
-def cases(n, m):
+def cases(n, m, simulate=0, seed=1):
+    """every complete history (exhaustive), or `simulate` random behaviours of a larger configuration"""
+    kw = dict(simulate="num=%d" % simulate, depth=4 * n * m + 4, seed=seed) if simulate else {}
     r = vlib.tlc_run("V2MultiAck", CFG % (n, m), [vlib.SPEC + "/datapath/V2MultiAck.tla"], workers=1,
-                     name="V2MultiAck-cases-%d-%d" % (n, m), timeout=3000)
+                     name="V2MultiAck-cases-%d-%d" % (n, m), timeout=3000, **kw)
     if r["error"] or r["violated"]:
         raise vlib.Infra("V2MultiAck case export failed: %s %s" % (r["error"], r["violated"]))
     out = []
+    seen = set()
     for line in r["out"].splitlines():
         k = line.find("CASE ")
         if k >= 0:
-            out.append(json.loads(line[k + 5:].strip().strip('"').replace('\\"', '"')))
+            js = line[k + 5:].strip().strip('"').replace('\\"', '"')
+            if js not in seen:
+                seen.add(js)
+                out.append(json.loads(js))
     return out, r
 
 
 def run(chk, quick):
     total = compared = 0
-    for n, m in ([(3, 2)] if quick else [(3, 2), (3, 3), (4, 2)]):
-        cs, r = cases(n, m)
+    # 3 positions x 2 branches exhaustively (84 k histories); larger configurations by simulation (the exhaustive
+    # export of 4 x 2 is > 6 million histories)
+    for n, m, sim in ([(3, 2, 0)] if quick else [(3, 2, 0), (4, 2, 20000), (3, 3, 20000), (5, 2, 10000), (4, 3, 10000)]):
+        cs, r = cases(n, m, sim, chk.seed)
         chk.add_design(r, "V2MultiAck %d positions x %d branches, votes as single positions and runs, any parent call "
-                          "failing: model-checked, %d complete histories exported and replayed on the real arbiter" % (n, m, len(cs)))
+                          "failing: %s, %d complete histories exported and replayed on the real arbiter" %
+                       (n, m, "model-checked exhaustively" if not sim else "%d simulated behaviours" % sim, len(cs)))
         scs, per = [], 4000
         for k in range(0, len(cs), per):
             scs.append({"id": "ma-%d-%d-%05d" % (n, m, k // per), "cases": [
